@@ -39,12 +39,17 @@ None == -1
 
 (***************************************************************************)
 (* policy configuration pc: [retry : BOOLEAN, rc : retry configuration,    *)
-(*                           bc : breaker configuration]                   *)
+(*                           bc : breaker configuration,                   *)
+(*                           ext : direct breaker operations [op, k] that  *)
+(*                                 other users of the shared breaker may   *)
+(*                                 perform between policy calls,           *)
+(*                           next : how many of them at most]              *)
 (* policy state p                                                          *)
 (***************************************************************************)
 PInit(pc) == [ph |-> "idle", ncall |-> 0, now |-> 0, t0 |-> 0,
               b |-> B!BInit, s |-> L!SInit(pc.rc), mode |-> "-",
               bev |-> "-", bk |-> "-", view |-> [kind |-> "-"], out |-> "-", outk |-> "-",
+              next |-> 0,        \* direct breaker operations performed so far
               post |-> FALSE]    \* execute() without retry: on_attempt_end follows the settlement
 
 EvAllow(allowed, bev, state, at) ==
@@ -236,6 +241,17 @@ AEndAfter(pc, p) ==
         { <<EvAEndNoRetry(p), [p EXCEPT !.ph = "deliver", !.post = FALSE]>> }
     ELSE {}
 
+\* someone else uses the shared breaker directly between two policy calls
+\* (allow() takes the probe slot, record_*() settles or trips it)
+ExtOp(pc, p) ==
+    IF p.ph = "idle" /\ p.next < pc.next THEN
+        { LET at  == p.now + g
+              res == B!BApply(pc.bc, p.b, x.op, x.k, at)
+          IN  <<[e |-> "ext", op |-> x.op, k |-> x.k, allowed |-> res.allowed, ev |-> res.ev,
+                 state |-> res.b.st, at |-> at],
+                [p EXCEPT !.b = res.b, !.now = at, !.next = @ + 1]>> : x \in pc.ext, g \in Gaps }
+    ELSE {}
+
 PDeliver(pc, p) ==
     IF p.ph = "deliver" THEN
         { <<EvPDeliver(p.mode, p.view), [p EXCEPT !.ph = "idle", !.view = [kind |-> "-"]]>> }
@@ -245,5 +261,5 @@ PStep(pc, p) ==
     StartCall(pc, p) \cup PrePoll(pc, p) \cup PreRec(pc, p) \cup Allow(pc, p) \cup BEmit(pc, p)
     \cup RunRetry(pc, p) \cup BClassify(pc, p) \cup SettleRetry(pc, p)
     \cup AStartNoRetry(pc, p) \cup InvokeNoRetry(pc, p) \cup AEndBefore(pc, p)
-    \cup SettleNoRetryStep(pc, p) \cup AEndAfter(pc, p) \cup PDeliver(pc, p)
+    \cup SettleNoRetryStep(pc, p) \cup AEndAfter(pc, p) \cup PDeliver(pc, p) \cup ExtOp(pc, p)
 =============================================================================
